@@ -200,6 +200,13 @@ func (s *Session) Destroy() error {
 
 	// Expire session
 	s.delSession()
+
+	// A session owned by the session middleware must not be saved again after the handler returns
+	if s.ctx != nil {
+		if m, ok := s.ctx.Locals(middlewareContextKey).(*Middleware); ok && m.Session == s {
+			m.destroyed = true
+		}
+	}
 	return nil
 }
 
